@@ -205,7 +205,14 @@ def bounded_extra(repo, reg, tier):
     r = OblResult("bounded/rowiterable-class-contracts-and-sort-arm", "bounded:replay/bounded_rowiter.py", "bounded-stand-in", "", "bounded",
                   PROVED if ok else REFUTED, solver="native-enumeration (bounded, not a proof)", reason=(p.stdout + p.stderr).strip()[-600:])
     r.info["bounded"] = True
-    return [r], ["RowIterable class contracts, the Sort arm summary and the converted callables are ASSUMED by the deductive part and only bounded-checked natively "
+    # execution must not write to any pre-existing object (leaf payloads keep denoting the leaf's rows): the frame
+    # obligations of C09, restricted to the iteration engine's modules, are part of this check as well
+    from contracts.persist import frame_obligations
+
+    frame = [o for o in frame_obligations(repo) if o.func.startswith("iteration.")]
+    for o in frame:
+        o.label = o.label.replace("C09/", "C01/")
+    return [r] + frame, ["RowIterable class contracts, the Sort arm summary and the converted callables are ASSUMED by the deductive part and only bounded-checked natively "
                  f"(replay/bounded_rowiter.py, sequences up to length {n}, 3 columns, values 0..2): " + p.stdout.strip()[-120:]]
 
 
